@@ -1,8 +1,9 @@
 """C10 — Structural rewrites preserve what a pipeline computes.
 
 Histories over an environment name -> Pipeline: copy, cloudpickle round-trip, join / |, update_renames, update_scope and
-its removal (dotted and nested-dict calling conventions), nest_funcs / NestedPipeFunc, simplified_pipeline,
-split_disconnected, add_mapspec_axis, and mutations (update_defaults / update_bound) on one of two related objects.
+its removal (every form of inputs / outputs / exclude, dotted scopes; dotted and nested-dict calling conventions), nest_funcs /
+NestedPipeFunc, simplified_pipeline, split_disconnected, add_mapspec_axis, and in-place mutations (update_defaults, update_bound,
+update_renames, update_scope, drop, add, replace) of the new or the old object of a rewrite, after which BOTH are observed again.
 After every operation BOTH the new and the old object are evaluated for every retained output (pipeline(...) for call
 pipelines, map for MapSpec pipelines): the property clauses are judged on the implementation alone (new == old up to the
 stated renaming; old unchanged), and every value and a structural summary are compared with `PF.Rw`
@@ -20,18 +21,25 @@ import mapgen
 import pipegen
 
 PID = "C10"
-PROPS = ["PfModel.Props.C10"]
+PROPS = ["PfModel.Props.C10", "PfModel.Props.C10Axis", "PfModel.Props.C10Total", "PfModel.Props.C10Map", "PfModel.Props.C10Ops"]
 DRIVER = "C10"
 RULE = ("an environment with a pipegen DAG (1-5 term-building functions: tuple outputs, shared parameters, defaults, bound values, renames) or a "
         "well-formed mapgen MapSpec pipeline (1-3 functions), optionally a second pipeline to join; a history of 1-3 rewrites drawn by weight "
         "from {copy, pickle, join/|, rename 1-2 names, scope, unscope, nest 2-3 functions (all/chosen outputs), simplify (both modes), split, "
-        "add_mapspec_axis on a root} plus up to two mutations (update_defaults/update_bound), defaults given in the signature or explicitly; after every op all outputs of the "
-        "new and the old object are evaluated; a separate malformed stream (unused rename keys, capturing renames, unknown outputs, dropped "
-        "consumed outputs) only demands refusal-or-consistency and an unchanged original; non-trivial = at least one rewrite other than "
+        "add_mapspec_axis on a root, update_scope with inputs/outputs in {None, '*', name sets} and exclude, plain / dotted / removed scopes} plus up to two "
+        "standalone in-place mutations; after every performed rewrite, with probability 0.5 (always in the corpus, one case per rewrite kind), the new or the "
+        "old object is mutated in place by one of {update_defaults, update_bound, update_renames, update_scope, drop, add, replace} (the least exercised "
+        "(rewrite, mutation, side) pair first) and both objects are observed again; 30 % of the joinable second pipelines share a root default with the "
+        "first, half of them with a different value (join must refuse); defaults given in the signature or explicitly; after every op all outputs of the "
+        "new and the old object are evaluated; refusals of both sides are compared by exception class where that class is a fact of the code; "
+        "a separate malformed stream (unused rename keys, capturing renames, unknown outputs, dropped "
+        "consumed outputs, drop/replace of an unknown output, add of a duplicate output) only demands refusal-or-consistency and an unchanged original; non-trivial = at least one rewrite other than "
         "copy/pickle was performed on a pipeline with >= 2 functions; distinct by (environment, ops)")
 ASSUMPTIONS = ["inspect.signature, networkx (connected components, predecessor order = parameter order) and cloudpickle are specified by the model, not verified",
                "values are uninterpreted terms recording ORIGINAL parameter and output names; a list, tuple or 1-D ndarray of the same elements is the same value",
                "for MapSpec pipelines the model's terms record the current output name in a pick; they are relabelled with the harness's own name tracking before comparison",
+               "a MapSpec array name takes one scope (`scope.name`): a dotted scope on a name that a MapSpec mentions is refused by the implementation (ValueError) and by the model, and add_mapspec_axis is not proposed under a nested scope",
+               "the order of the input arrays inside a MapSpec string is not compared",
                "only root arguments are supplied as keywords (the rewritten pipeline is not required to accept former intermediates)"]
 
 
@@ -71,10 +79,35 @@ def gen_env(rng, kind):
         return [["p0", {"kind": "map", "desc": desc}]]
     desc = pipegen.gen_dag(rng, max_funcs=rng.choice([2, 3, 4, 5]), p_tuple=0.3, p_bound=0.2)
     env = [["p0", {"kind": "call", "desc": desc, "explicit_defaults": rng.random() < 0.5}]]
-    if rng.random() < 0.3:
+    if rng.random() < 0.4:
         d2 = shifted(pipegen.gen_dag(rng, max_funcs=rng.choice([1, 2, 3])), pipegen.all_outputs(desc), rng)
+        r = rng.random()
+        if r < 0.55:
+            share_defaults(desc, d2, rng, clash=r < 0.3)
         env.append(["q0", {"kind": "call", "desc": d2}])
     return env
+
+
+def share_defaults(d1, d2, rng, clash):
+    """Give a root argument that both pipelines take a default in both: a different one (join must refuse) or the same."""
+    produced = set(pipegen.all_outputs(d1)) | set(pipegen.all_outputs(d2))
+
+    def free_roots(d):
+        return {pr[0] for f in d["funcs"] for pr in f["params"] if pr[0] not in produced and not any(b[0] == pr[0] for b in f["bound"])}
+    shared = sorted(free_roots(d1) & free_roots(d2))
+    if not shared:
+        return
+    r = rng.choice(shared)
+    for d, val in ((d1, f"dflt:{r}"), (d2, f"dflt2:{r}" if clash else f"dflt:{r}")):
+        have = [x for f in d["funcs"] for x in f["defaults"] if x[0] == r]
+        if have:
+            for x in have:
+                x[1] = pipegen.sval(val)
+            continue
+        f = next(f for f in d["funcs"] if any(pr[0] == r for pr in f["params"]) and not any(b[0] == r for b in f["bound"]))
+        f["defaults"].append([r, pipegen.sval(val)])
+        dn = {x[0] for x in f["defaults"]}
+        f["params"] = [q for q in f["params"] if q[0] not in dn] + [q for q in f["params"] if q[0] in dn]
 
 
 def propose(rng, runner, k, allow_mutation):
@@ -88,13 +121,16 @@ def propose(rng, runner, k, allow_mutation):
     dst = f"p{len(names) + k}x"
     dotted = any("." in n for n in outs + roots)
     if ent.kind == "map":
-        table = [("copy", 1), ("pickle", 1), ("rename", 2.5), ("scope", 2), ("unscope", 1.5 if dotted else 0.2), ("split", 1),
-                 ("add_axis", 3.5 if any(ent.tags.get(r, r) in ent.inputs for r in roots) else 0), ("mutate", 0.7 if allow_mutation else 0)]
+        table = [("copy", 1), ("pickle", 1), ("rename", 2.5), ("scope", 1.2), ("scope_sel", 2), ("unscope", 1.5 if dotted else 0.2), ("split", 1),
+                 ("add_axis", 3.5 if any(ent.tags.get(r, r) in ent.inputs for r in roots) and not any(n.count(".") > 1 for n in outs + roots) else 0), ("mutate", 0.7 if allow_mutation else 0)]
     else:
         joinable = [n for n in names if n != src and runner.env[n].kind == "call" and not (set(runner.env[n].p.all_output_names) & set(outs))]
-        table = [("copy", 1), ("pickle", 1), ("rename", 2.5), ("scope", 2), ("unscope", 1.5 if dotted else 0.2),
+        table = [("copy", 1), ("pickle", 1), ("rename", 2.5), ("scope", 1.2), ("scope_sel", 3), ("unscope", 1.5 if dotted else 0.2),
                  ("nest", 3.5 if len(p.functions) >= 2 else 0), ("simplify", 3 if len(p.functions) >= 2 else 0), ("split", 1.5),
-                 ("join", 2.5 if joinable else 0), ("mutate", 1.5 if allow_mutation else 0)]
+                 ("join", 2.5 if joinable else 0), ("mutate", 1.5 if allow_mutation else 0),
+                 # add_mapspec_axis on a pipeline without MapSpecs: the fragment of C10_add_axis (any DAG, tuple outputs, defaults, bound)
+                 ("add_axis", 2.0 if roots and not any(isinstance(f, R.NestedPipeFunc) for f in p.functions)
+                  and not any(n.count(".") > 1 for n in outs + roots) else 0)]
     kind = rng.choices([t[0] for t in table], weights=[t[1] for t in table])[0]
     if kind in ("copy", "pickle"):
         return {"op": kind, "src": src, "dst": dst}
@@ -110,11 +146,19 @@ def propose(rng, runner, k, allow_mutation):
         return {"op": "scope", "src": src, "dst": dst, "scope": rng.choice(["S", "T", "sc"])}
     if kind == "unscope":
         return {"op": "scope", "src": src, "dst": dst, "scope": None}
+    if kind == "scope_sel":
+        return dict({"op": "scope_sel", "src": src, "dst": dst}, **scope_form(rng, p, roots, outs))
     if kind == "split":
         return {"op": "split", "src": src, "dst": dst, "out": rng.choice(outs)}
     if kind == "add_axis":
-        cands = [r for r in roots if ent.tags.get(r, r) in ent.inputs]
-        return {"op": "add_axis", "src": src, "dst": dst, "param": rng.choice(cands), "axis": f"w{len(names)}"}
+        # a root whose tag (its name in the generated pipeline) another root shares (a scoped copy joined with its original)
+        # cannot be given its own value by the tag-keyed inputs: not proposed
+        tagc = [ent.tags.get(r, r) for r in roots]
+        cands = ([r for r in roots if ent.tags.get(r, r) in ent.inputs] if ent.kind == "map"
+                 else [r for r in roots if tagc.count(ent.tags.get(r, r)) == 1])
+        if not cands:
+            return {"op": "copy", "src": src, "dst": dst}
+        return {"op": "add_axis", "src": src, "dst": dst, "param": rng.choice(cands), "axis": f"w{len(names)}", "K": rng.choice([1, 2, 2, 3])}
     if kind == "simplify":
         leaves = [R.at_least_tuple(f.output_name)[0] for f in p.leaf_nodes]
         o = rng.choice(leaves) if rng.random() < 0.75 else rng.choice(outs)
@@ -146,15 +190,111 @@ def propose(rng, runner, k, allow_mutation):
             op["malformed"] = not (consumed <= set(op["out"]))
         return op
     if kind == "mutate":
-        if rng.random() < 0.6 and roots:
-            r = rng.choice(roots)
-            return {"op": "set_defaults", "target": src, "map": [[r, {"s": f"newdefault:{k}"}]]}
-        f = rng.choice(list(p.functions))
-        free = [a for a in f.parameters if a not in f.bound and a not in f.defaults and not (f.mapspec and a in f.mapspec.input_names)]
-        if not free:
-            return {"op": "copy", "src": src, "dst": dst}
-        return {"op": "set_bound", "target": src, "out": R.at_least_tuple(f.output_name)[0], "map": [[rng.choice(free), {"s": f"newbound:{k}"}]]}
+        return propose_mutation(rng, runner, src, f"{k}s") or {"op": "copy", "src": src, "dst": dst}
     raise AssertionError(kind)
+
+
+def scope_form(rng, p, roots, outs):
+    """The arguments of one `update_scope` call: every documented form of inputs / outputs / exclude, plain, dotted and removed scopes."""
+    roots, outs = sorted(roots), sorted(outs)
+    scope = rng.choice(["S", "T", "sc", "S", "T", "A.B", "S.U"]) if rng.random() > 0.1 else None
+    bound = sorted({a for f in p.functions for a in f.bound})
+    r = rng.random()
+    if r < 0.2:
+        inputs, outputs, exclude = "*", None, None
+    elif r < 0.4:
+        inputs, outputs, exclude = None, "*", None
+    elif r < 0.65:
+        pool_i = roots + ([b for b in bound if rng.random() < 0.7] if bound else [])
+        inputs = sorted(rng.sample(pool_i, rng.randint(1, min(2, len(pool_i))))) if pool_i and rng.random() < 0.7 else None
+        outputs = sorted(rng.sample(outs, rng.randint(1, min(2, len(outs))))) if outs and (inputs is None or rng.random() < 0.5) else None
+        if rng.random() < 0.15:
+            inputs, outputs = (outputs, inputs) if rng.random() < 0.5 else ("*", outputs)     # names given in the wrong role are ignored
+        exclude = None
+    elif r < 0.9:
+        pool = roots + outs + bound
+        inputs, outputs = rng.choice([("*", "*"), ("*", "*"), ("*", None), (None, "*")])
+        exclude = sorted(rng.sample(pool, rng.randint(1, min(2, len(pool))))) if pool else []
+    else:
+        inputs, outputs, exclude = "*", "*", None
+        scope = rng.choice(["A.B", "S.U", "A.B.C"])
+    return {"scope": scope, "inputs": inputs, "outputs": outputs, "exclude": exclude}
+
+
+def live_func_desc(ent, f, name):
+    """A fresh term-building function with the current parameters, outputs, defaults, bound values and MapSpec of `f`."""
+    params = [[a, a if "." not in a else f"a{j}"] for j, a in enumerate(f.parameters)]
+    outs = list(R.at_least_tuple(f.output_name))
+    fd = {"name": name, "params": params, "outputs": outs,
+          "defaults": sorted([[a, R.terms.enc(v)] for a, v in f.defaults.items() if a not in f.bound], key=lambda kv: kv[0]),
+          "bound": sorted([[a, R.terms.enc(v)] for a, v in f.bound.items()], key=lambda kv: kv[0])}
+    dn = {x[0] for x in fd["defaults"]}
+    fd["params"] = [q for q in params if q[0] not in dn] + [q for q in params if q[0] in dn]
+    if ent.kind == "map":
+        ms = f.mapspec
+        fd["mapspec"] = None if ms is None else {"inputs": [[a.name, list(a.axes)] for a in ms.inputs], "outputs": [[a.name, list(a.axes)] for a in ms.outputs]}
+        fd["mapspec_str"] = None if ms is None else str(ms)
+        fd["ret"] = ent.rets.get(ent.labels.get(outs[0], outs[0]))
+        fd["internal"] = list(f.internal_shape) if isinstance(getattr(f, "internal_shape", None), tuple) else None
+        fd["autogen"] = False
+    return fd
+
+
+def propose_mutation(rng, runner, target, uid, extra=None):
+    """One in-place mutation of `target`, chosen with the real object in view; None when none applies."""
+    ent = runner.env[target]
+    p = ent.p
+    outs = sorted(p.all_output_names)
+    roots = sorted(runner.roots(p))
+    fs = list(p.functions)
+    kinds = list(R.MUTATIONS)
+    rng.shuffle(kinds)
+    if extra and extra.get("after"):
+        # the (rewrite, mutation, side) pairs exercised least so far in this run come first
+        kinds.sort(key=lambda m: SEEN.get((extra["after"], m, extra["which"]), 0))
+    for kind in kinds:
+        op = None
+        if kind == "set_defaults" and roots:
+            op = {"op": kind, "target": target, "map": [[rng.choice(roots), {"s": f"newdefault:{uid}"}]]}
+        elif kind == "set_bound":
+            f = rng.choice(fs)
+            free = [a for a in f.parameters if a not in f.bound and a not in f.defaults and not (f.mapspec and a in f.mapspec.input_names)]
+            if free:
+                op = {"op": kind, "target": target, "out": R.at_least_tuple(f.output_name)[0], "map": [[rng.choice(free), {"s": f"newbound:{uid}"}]]}
+        elif kind == "mut_rename":
+            pool = sorted(set(outs + roots))
+            chosen = rng.sample(pool, min(len(pool), rng.choice([1, 1, 2])))
+            op = {"op": kind, "target": target, "map": [[n, f"{n}_M{uid}"] for n in chosen]}
+        elif kind == "mut_scope":
+            form = scope_form(rng, p, roots, outs)
+            names = R.scope_names(p, form["inputs"], form["outputs"], form["exclude"])
+            if names and R.injective(lambda n: R.prepend_scope(form["scope"], n) if n in names else n, R.used_names(p)):
+                op = dict({"op": kind, "target": target}, **form)
+        elif kind == "mut_drop" and len(fs) >= 2:
+            cands = fs if ent.kind == "call" else [f for f in fs if not any(a in R.at_least_tuple(f.output_name) for g in fs for a in g.parameters)]
+            if cands:
+                op = {"op": kind, "target": target, "out": rng.choice(R.at_least_tuple(rng.choice(cands).output_name))}
+        elif kind == "mut_add":
+            pool = sorted(set(outs + roots))
+            chosen = rng.sample(pool, min(len(pool), rng.randint(1, 2)))
+            fd = {"name": f"h{uid}", "params": [[a, a if "." not in a and rng.random() < 0.7 else f"a{j}"] for j, a in enumerate(chosen)],
+                  "outputs": [f"z{uid}"] if rng.random() < 0.8 else [f"z{uid}a", f"z{uid}b"], "defaults": [], "bound": []}
+            if ent.kind == "call" and rng.random() < 0.4:
+                fd["params"].append([f"n{uid}", f"n{uid}"])
+                if rng.random() < 0.5:
+                    fd["defaults"].append([f"n{uid}", {"s": f"dflt:n{uid}"}])
+            if ent.kind == "map":
+                fd.update(mapspec=None, mapspec_str=None, ret=None, internal=None, autogen=False)
+            op = {"op": kind, "target": target, "func": fd}
+        elif kind == "mut_replace":
+            f = rng.choice(fs)
+            op = {"op": kind, "target": target, "func": live_func_desc(ent, f, f"h{uid}")}
+        if op is not None:
+            op.update(extra or {})
+            if op.get("after"):
+                SEEN[(op["after"], kind, op["which"])] = SEEN.get((op["after"], kind, op["which"]), 0) + 1
+            return op
+    return None
 
 
 def propose_malformed(rng, runner, k):
@@ -163,7 +303,13 @@ def propose_malformed(rng, runner, k):
     ent = runner.env[src]
     outs = sorted(ent.p.all_output_names)
     dst = f"m{k}"
-    c = rng.choice(["unused-rename", "unknown-nest", "unknown-split", "unknown-simplify", "capture"])
+    c = rng.choice(["unused-rename", "unknown-nest", "unknown-split", "unknown-simplify", "capture", "unknown-drop", "unknown-replace", "dup-add"])
+    if c == "unknown-drop":
+        return {"op": "mut_drop", "target": src, "out": "nosuchoutput"}
+    if c == "unknown-replace":
+        return {"op": "mut_replace", "target": src, "func": live_func_desc(ent, ent.p.functions[0], f"h{k}m") | {"outputs": ["nosuchoutput"], "mapspec": None, "mapspec_str": None}}
+    if c == "dup-add":
+        return {"op": "mut_add", "target": src, "func": live_func_desc(ent, ent.p.functions[-1], f"h{k}m")}
     if c == "unused-rename":
         return {"op": "rename", "src": src, "dst": dst, "map": [["nosuchname", "x"]]}
     if c == "unknown-nest":
@@ -175,6 +321,10 @@ def propose_malformed(rng, runner, k):
     return {"op": "rename", "src": src, "dst": dst, "map": [["nosuchname2", outs[0]]]}      # unused key onto an existing name
 
 
+P_MUTATE_AFTER = 0.5
+SEEN: dict = {}      # (rewrite kind, mutation kind, new|old) -> proposals in this run (reset by `run`; steers the choice only)
+
+
 def gen_case(rng, k_case):
     kind = "map" if k_case % 4 == 3 else "call"
     env = gen_env(rng, kind)
@@ -182,11 +332,30 @@ def gen_case(rng, k_case):
     ops = []
     mutated = 0
     for k in range(rng.choice([1, 2, 2, 3, 3, 4])):
-        op = propose(rng, runner, k, allow_mutation=mutated < 2 and k > 0)
-        mutated += op["op"].startswith("set_")
+        try:
+            op = propose(rng, runner, k, allow_mutation=mutated < 2 and k > 0)
+        except Exception as e:  # noqa: BLE001   the proposal reads graph / root_args / leaf_nodes of the real objects
+            runner.inconsistent(e, ops)
+            break
+        mutated += op["op"] in R.MUTATIONS
         ops.append(op)
-        runner.apply(op)
-    if rng.random() < 0.12:
+        ok = runner.apply(op)
+        if ok and op["op"] not in R.MUTATIONS and runner.last is not None and rng.random() < P_MUTATE_AFTER:
+            # independence after mutation: the new or the old object of this rewrite is mutated in place, both are observed again
+            rk, new, olds = runner.last
+            which = rng.choice(["new", "old"])
+            target, pair = (new, rng.choice(olds)) if which == "new" else (rng.choice(olds), new)
+            try:
+                mop = propose_mutation(rng, runner, target, f"{len(ops)}", {"pair": pair, "after": rk, "which": which})
+            except Exception as e:  # noqa: BLE001
+                runner.inconsistent(e, ops)
+                break
+            if mop is not None:
+                ops.append(mop)
+                runner.apply(mop)
+        if runner.halted:
+            break
+    if rng.random() < 0.12 and not runner.halted:
         op = propose_malformed(rng, runner, len(ops))
         ops.append(op)
         runner.apply(op)
@@ -196,6 +365,8 @@ def gen_case(rng, k_case):
 def rerun(case):
     runner = R.Runner(case["env"])
     for op in case["ops"]:
+        if runner.halted:
+            break
         if op.get("src", op.get("target")) in runner.env and (op.get("other") is None or op["other"] in runner.env):
             runner.apply(op)
     return runner
@@ -204,6 +375,7 @@ def rerun(case):
 # ---------------------------------------------------------------------------------------------- judging
 def judge(ctx, case, runner, resp):
     performed = [p["op"]["op"] for p in runner.plan if p["kind"] == "op" and "ok" in p["impl"]]
+    model_problems = list(R.judge_model(runner, resp["r"]["steps"]))
     for c in runner.counts:
         ctx.count(c)
     ctx.count(f"kind:{case['env'][0][1]['kind']}")
@@ -212,7 +384,7 @@ def judge(ctx, case, runner, resp):
     ctx.record(case, nontrivial=n_funcs >= 2 and any(o not in ("copy", "pickle") for o in performed))
     for what, found, item, impl, model in runner.problems:
         ctx.violation(case, what, found_input=found, item=item, impl=impl, model=model)
-    for what, found, item, impl, model in R.judge_model(runner, resp["r"]["steps"]):
+    for what, found, item, impl, model in model_problems:
         ctx.violation(case, what, found_input=found, item=item, impl=impl, model=model)
 
 
@@ -223,6 +395,20 @@ def F(name, params, outputs, defaults=(), bound=()):
 
 def call_env(*funcs):
     return [["p0", {"kind": "call", "desc": {"funcs": list(funcs)}}]]
+
+
+def BASE3():
+    return call_env(F("f0", ["r0"], ["o0"]), F("f1", ["o0", "r1"], ["o1"]), F("f2", ["o1"], ["o2"]))
+
+
+def MAP2():
+    """x0 mapped over by f1 (x0[i] -> y1[i]) and taken whole by f0"""
+    return [["p0", {"kind": "map", "desc": {"funcs": [
+        {"name": "f0", "params": [["x0", "x0"], ["c1", "c1"]], "outputs": ["y0"], "mapspec": None, "mapspec_str": None, "autogen": False, "ret": None,
+         "internal": None, "defaults": [], "bound": []},
+        {"name": "f1", "params": [["x0", "x0"]], "outputs": ["y1"], "mapspec": {"inputs": [["x0", ["i"]]], "outputs": [["y1", ["i"]]]},
+         "mapspec_str": "x0[i] -> y1[i]", "autogen": False, "ret": None, "internal": None, "defaults": [], "bound": []}],
+        "inputs": [["c1", {"s": "in:c1"}], ["x0", {"arr": [[2], [{"s": "e0"}, {"s": "e1"}]]}]], "input_kinds": {"x0": "array"}, "internal": [], "sizes": {"i": 2}}}]]
 
 
 CORPUS: list = [
@@ -262,6 +448,50 @@ CORPUS: list = [
          "mapspec_str": "x0[i] -> y1[i]", "autogen": False, "ret": None, "internal": None, "defaults": [], "bound": []}],
         "inputs": [["c1", {"s": "in:c1"}], ["x0", {"arr": [[2], [{"s": "e0"}, {"s": "e1"}]]}]], "input_kinds": {"x0": "array"}, "internal": [], "sizes": {"i": 2}}}]],
      "ops": [{"op": "add_axis", "src": "p0", "dst": "p1", "param": "x0", "axis": "w"}]},
+    # --- independence after mutation, one case per rewrite kind: the new or the old object is mutated in place, both are observed again
+    {"env": BASE3(), "ops": [{"op": "copy", "src": "p0", "dst": "p1"},
+                             {"op": "mut_drop", "target": "p1", "out": "o0", "pair": "p0", "after": "copy", "which": "new"},
+                             {"op": "mut_replace", "target": "p0", "func": F("h1", ["o0", "r1"], ["o1"]), "pair": "p1", "after": "copy", "which": "old"}]},
+    {"env": BASE3(), "ops": [{"op": "pickle", "src": "p0", "dst": "p1"},
+                             {"op": "mut_replace", "target": "p1", "func": F("h1", ["r0"], ["o0"]), "pair": "p0", "after": "pickle", "which": "new"},
+                             {"op": "set_defaults", "target": "p0", "map": [["r1", {"s": "newdefault"}]], "pair": "p1", "after": "pickle", "which": "old"}]},
+    {"env": BASE3() + [["q0", {"kind": "call", "desc": {"funcs": [F("g0", ["o1", "r0"], ["q0"], defaults=[["r0", {"s": "dflt:r0"}]])]}}]],
+     "ops": [{"op": "join", "src": "p0", "other": "q0", "dst": "p1", "via": "or"},
+             {"op": "mut_add", "target": "p0", "func": F("h1", ["o2", "n1"], ["z1"], defaults=[["n1", {"s": "dflt:n1"}]]), "pair": "p1", "after": "join", "which": "old"},
+             {"op": "mut_drop", "target": "p1", "out": "o1", "pair": "q0", "after": "join", "which": "new"}]},
+    {"env": BASE3(), "ops": [{"op": "rename", "src": "p0", "dst": "p1", "map": [["o1", "o1_R"], ["r0", "r0_R"]]},
+                             {"op": "mut_rename", "target": "p0", "map": [["o1", "o1_M"], ["r1", "r1_M"]], "pair": "p1", "after": "rename", "which": "old"},
+                             {"op": "set_bound", "target": "p1", "out": "o1_R", "map": [["r1", {"s": "newbound"}]], "pair": "p0", "after": "rename", "which": "new"}]},
+    {"env": BASE3(), "ops": [{"op": "scope", "src": "p0", "dst": "p1", "scope": "S"},
+                             {"op": "mut_scope", "target": "p1", "scope": "T", "inputs": "*", "outputs": "*", "exclude": ["S.o1", "S.r1"], "pair": "p0", "after": "scope", "which": "new"},
+                             {"op": "mut_scope", "target": "p0", "scope": "A.B", "inputs": ["r0"], "outputs": ["o2"], "exclude": None, "pair": "p1", "after": "scope", "which": "old"}]},
+    {"env": BASE3(), "ops": [{"op": "nest", "src": "p0", "dst": "p1", "sel": ["o0", "o1"], "out": None},
+                             {"op": "set_bound", "target": "p0", "out": "o1", "map": [["r1", {"s": "newbound"}]], "pair": "p1", "after": "nest", "which": "old"},
+                             {"op": "mut_rename", "target": "p1", "map": [["o1", "o1_M"]], "pair": "p0", "after": "nest", "which": "new"}]},
+    {"env": call_env(F("f0", ["r0"], ["o0"]), F("f1", ["o0", "r0"], ["o1"]), F("f2", ["o1", "r1"], ["o2"])),
+     "ops": [{"op": "simplify", "src": "p0", "dst": "p1", "out": "o2", "conservative": False},
+             {"op": "set_defaults", "target": "p1", "map": [["r0", {"s": "newdefault"}]], "pair": "p0", "after": "simplify", "which": "new"},
+             {"op": "mut_drop", "target": "p0", "out": "o1", "pair": "p1", "after": "simplify", "which": "old"}]},
+    {"env": call_env(F("f0", ["r0"], ["o0"]), F("f1", ["o0"], ["o1"]), F("f2", ["r2"], ["o2a", "o2b"]), F("f3", ["o2b"], ["o3"])),
+     "ops": [{"op": "split", "src": "p0", "dst": "p1", "out": "o3"},
+             {"op": "mut_drop", "target": "p0", "out": "o2a", "pair": "p1", "after": "split", "which": "old"},
+             {"op": "mut_add", "target": "p1", "func": F("h1", [["o3", "a0"], "r2"], ["z1a", "z1b"]), "pair": "p0", "after": "split", "which": "new"}]},
+    {"env": MAP2(), "ops": [{"op": "add_axis", "src": "p0", "dst": "p1", "param": "x0", "axis": "w"},
+                            {"op": "mut_rename", "target": "p1", "map": [["y1", "y1_M"], ["x0", "x0_M"]], "pair": "p0", "after": "add_axis", "which": "new"},
+                            {"op": "mut_scope", "target": "p0", "scope": "S", "inputs": None, "outputs": "*", "exclude": None, "pair": "p1", "after": "add_axis", "which": "old"}]},
+    # join / | with clashing defaults for a shared root (refused), with equal defaults (accepted)
+    {"env": call_env(F("f0", ["r0", "r1"], ["o0"], defaults=[["r1", {"s": "dflt:r1"}]])) +
+            [["q0", {"kind": "call", "desc": {"funcs": [F("g0", ["r1"], ["q0"], defaults=[["r1", {"s": "dflt2:r1"}]])]}}],
+             ["q1", {"kind": "call", "desc": {"funcs": [F("g1", ["o0", "r1"], ["q1"], defaults=[["r1", {"s": "dflt:r1"}]])]}}]],
+     "ops": [{"op": "join", "src": "p0", "other": "q0", "dst": "p1", "via": "join"}, {"op": "join", "src": "p0", "other": "q0", "dst": "p2", "via": "or"},
+             {"op": "join", "src": "p0", "other": "q1", "dst": "p3", "via": "or"}]},
+    # nested scopes: a dotted scope, re-scoping and un-scoping a scoped pipeline; a parameter bound in one function and free in another
+    {"env": call_env(F("f0", ["r0", "r1"], ["o0"], bound=[["r1", {"s": "bound:r1:f0"}]]), F("f1", ["o0", "r1", "r2"], ["o1a", "o1b"], defaults=[["r2", {"s": "dflt:r2"}]]),
+                     F("f2", ["o1a", "r3"], ["o2"], bound=[["r3", {"s": "bound:r3:f2"}]])),
+     "ops": [{"op": "scope_sel", "src": "p0", "dst": "p1", "scope": "A.B", "inputs": "*", "outputs": "*", "exclude": None},
+             {"op": "scope_sel", "src": "p1", "dst": "p2", "scope": "S", "inputs": "*", "outputs": None, "exclude": ["A.B.r2"]},
+             {"op": "scope_sel", "src": "p1", "dst": "p3", "scope": None, "inputs": ["A.B.r0", "r3"], "outputs": ["A.B.o2"], "exclude": None},
+             {"op": "scope_sel", "src": "p0", "dst": "p4", "scope": "S", "inputs": ["r1", "r3"], "outputs": None, "exclude": None}]},
     # a renamed NestedPipeFunc with an inherited default, copied
     {"env": call_env(F("f0", [["r0", "a0"]], ["o0"], defaults=[["r0", {"s": "dflt:r0"}]]), F("f1", ["o0", "r1"], ["o1a", "o1b"]), F("f2", ["o1b"], ["o2"])),
      "ops": [{"op": "nest", "src": "p0", "dst": "p1", "sel": ["o0", "o1a"], "out": ["o1a", "o1b"]},
@@ -272,12 +502,13 @@ CORPUS: list = [
 
 def run(ctx):
     rng = ctx.rng
+    SEEN.clear()
     done = []
     for c in CORPUS:
         case = copy.deepcopy(c)
         done.append((case, rerun(case)))
         ctx.count("corpus")
-    for k in range(ctx.n(900, 14000)):
+    for k in range(ctx.n(640, 12000)):
         try:
             case, runner = gen_case(rng, k)
         except Exception as e:  # noqa: BLE001   the generator builds valid pipelines only
